@@ -304,6 +304,9 @@ class Check:
                     undecided, hit = 0, None
                     for lab, e in labelled_bad:
                         r1, m1 = self.solve(list(assumptions) + extra + [e])
+                        if r1 == 'unknown':
+                            # the few hard conditions get a longer cap before they count as undecided
+                            r1, m1 = self.solve(list(assumptions) + extra + [e], timeout_ms=6 * self.query_timeout_ms)
                         if r1 == 'sat':
                             hit = m1
                             break
